@@ -69,6 +69,27 @@ def gen_pair(rng, nfun=None, same_shape_bias=0.5):
     return old, new
 
 
+CLUSTERS = [["Lookup", "lookup", "LOOKUP", "LookUp", "Lookup_", "lookup2"], ["Get", "get", "GET", "Get1", "GetAll", "getAll"],
+            ["Run", "run", "Run\u00e9", "run\u00e9", "R\u00fcn"], ["x", "X", "xx", "Xx", "xX", "XX"], ["Parse", "parse", "ParseAll", "parseall"]]
+
+
+def restyle(rng, old, new):
+    """The same pair with its identifiers drawn from clusters of look-alike names: names that differ
+    only in letter case (the exported wrapper / unexported worker idiom), share prefixes, or differ in a
+    non-ASCII letter.  One-to-one on names, so which functions are kept / renamed / added / removed does
+    not change."""
+    names = []
+    for f in old + new:
+        if f["name"] not in names:
+            names.append(f["name"])
+    pool = [n for c in rng.sample(CLUSTERS, len(CLUSTERS)) for n in c]
+    if len(names) > len(pool):
+        return old, new
+    # consecutive original names get names of one cluster, so a function and its neighbour collide up to case
+    mp = dict(zip(names, pool))
+    return [dict(f, name=mp[f["name"]]) for f in old], [dict(f, name=mp[f["name"]]) for f in new]
+
+
 def materialise(base, k, old, new):
     d = os.path.join(base, "p%d" % k)
     gogen.write_module(os.path.join(d, "old"), "gen", {"a.go": gogen.render_file("gen", old)})
